@@ -580,8 +580,7 @@ class Transaction:
                     witness_data = rawtx[cursor:cursor + item_size]
                     cursor += item_size
                     witnesses_tmp.append(witness_data.hex())
-                if witnesses_tmp:
-                    witnesses.append(TxWitnessInput(stack=witnesses_tmp))
+                witnesses.append(TxWitnessInput(stack=witnesses_tmp))
 
         # Read locktime (4 bytes)
         locktime = rawtx[cursor:cursor + 4]
